@@ -296,6 +296,9 @@ def c03(ctx):
     ctx.replay("C03-named-loops", ctx.gen_cases("C03N"), ["spans", "num", "loc", "val", "wf", "panic"])
     # whole file / line / word (firm where a file, line or word really starts)
     ctx.replay("C03-whole-classes", ctx.gen_cases("C03W"), FIELDS["C03"])
+    # amount clauses: the window keeps the numbers of the whole sequence (consecutive, in order), find and replace
+    am = ctx.gen_cases("C04")
+    ctx.replay("C03-amounts", [c for c in am if c["id"] >= 300000 or c["id"] % (7 if ctx.tier == "quick" else 2) == 0], FIELDS["C03"])
     # regex literals: the conventional semantics of spec/Regex.tla, full records
     d = ctx.scratch.sub("rxgen")
     out, st0 = vlib.run_tlc(d, "RegexScope", "CONSTANT OutFile = \"cases.ndjson\"\nCONSTANT Tier = \"quick\"\n", workers=1, timeout=300, heap="2g")
